@@ -55,3 +55,40 @@ package service
 //@   also-modifies failed
 //@ func (*HTTPService).ServeHTTP
 //@   ensures[C18.http_error_is_400] failed ==> protested
+
+// each System call of a location case is made on the location / id named by the request
+//@ define locArgOK(m, location) = is(m["location"], string) ==> location == m["location"].(string)
+//@ define idArgOK(m, id) = has(m, "id") && is(m["id"], string) ==> id == m["id"].(string)
+//@ func (*Service).ProcessRequest
+//@   assert[C18.arg_location_GetSize] at "s.System.GetSize(": locArgOK(m, location)
+//@   assert[C18.arg_location_CreateLocation] at "s.System.CreateLocation(": locArgOK(m, location)
+//@   assert[C18.arg_location_ClearLocation] at "s.System.ClearLocation(": locArgOK(m, location)
+//@   assert[C18.arg_location_DeleteLocation] at "s.System.DeleteLocation(": locArgOK(m, location)
+//@   assert[C18.arg_location_ProcessEvent] at "s.System.ProcessEvent(": locArgOK(m, location)
+//@   assert[C18.arg_location_AddFact] at "s.System.AddFact(": locArgOK(m, location)
+//@   assert[C18.arg_id_AddFact] at "s.System.AddFact(": idArgOK(m, id)
+//@   assert[C18.arg_location_RemFact] at "s.System.RemFact(ctx, location, id": locArgOK(m, location)
+//@   assert[C18.arg_id_RemFact] at "s.System.RemFact(ctx, location, id": idArgOK(m, id)
+//@   assert[C18.arg_location_GetFact] at "s.System.GetFact(": locArgOK(m, location)
+//@   assert[C18.arg_id_GetFact] at "s.System.GetFact(": idArgOK(m, id)
+//@   assert[C18.arg_location_SearchFacts] at "s.System.SearchFacts(": locArgOK(m, location)
+//@   assert[C18.arg_location_Query] at "s.System.Query(": locArgOK(m, location)
+//@   assert[C18.arg_location_ListRules] at "s.System.ListRules(": locArgOK(m, location)
+//@   assert[C18.arg_location_AddRule] at "s.System.AddRule(": locArgOK(m, location)
+//@   assert[C18.arg_id_AddRule] at "s.System.AddRule(": idArgOK(m, id)
+//@   assert[C18.arg_location_RemRule] at "s.System.RemRule(": locArgOK(m, location)
+//@   assert[C18.arg_id_RemRule] at "s.System.RemRule(": idArgOK(m, id)
+//@   assert[C18.arg_location_EnableRule] at "s.System.EnableRule(": locArgOK(m, location)
+//@   assert[C18.arg_id_EnableRule] at "s.System.EnableRule(": idArgOK(m, id)
+//@   assert[C18.arg_location_SetParents] at "s.System.SetParents(": locArgOK(m, location)
+//@   assert[C18.arg_location_GetParents] at "s.System.GetParents(": locArgOK(m, location)
+
+// MaybeYAML: "has at least one newline" (bytes.Index: assumed -1 <= result < len(s))
+//@ ghost lastIdx int
+//@ extern bytes.Index
+//@   ensures result >= 0 - 1 && result < len(s)
+//@   ghost-ensures lastIdx == result
+//@   also-modifies lastIdx
+//@   pure-effects
+//@ func MaybeYAML
+//@   ensures[C18.maybeyaml_has_newline] result == (lastIdx >= 0)
